@@ -116,6 +116,19 @@ CHECKS = {
         design_ref='§7 C16',
         note=NOTE_COMMON + 'TLC integers are 32-bit: grid |x| < 1235 with 4 fractional digits, random decimals <= 9 significant digits; the nearest-double clause is carried by the abstraction function (repr round trip).',
         technique='TLA+ exact-decimal oracle with TLC-checked laws, TLC-enumerated grid replayed, trace validation'),
+    'C15': dict(
+        category='model_checking',
+        text=('TLC validates the calendar oracle (XlCalendar: era arithmetic for serial <-> civil date, DATE normalisation, EDATE/EOMONTH, '
+              'DATEDIF D/M/Y/YM, NETWORKDAYS with a holiday set) against definitions that step day by day and month by month '
+              '(CivilRoundTrip, ConsecutiveDays, Anchors, DateNormLaws, YmdInvert, EoMonthIsLast, EDateClamps, EDateStepwise, '
+              'DateDifDefinitions, NetworkDaysLaws) for every day of a year window x month offsets -14..27, and enumerates the grids: DATE over '
+              'years x months -14..27 x days -70..99, EDATE/EOMONTH over start dates x offsets -60..60, DATEDIF over ordered date pairs of a '
+              'multi-year grid, NETWORKDAYS over all pairs of a window x all subsets of 4 holidays. Binding: every row is replayed on the real '
+              'pipeline by overrides (YEAR/MONTH/DAY of every DATE result included), samples as cells, literals and through the public file '
+              'path; random arguments far outside the grid (years 1901..9990) are recomputed by TLC from recorded events (Trace_C15).'),
+        design_ref='§7 C15',
+        note=NOTE_COMMON + 'TODAY is compared with the system clock (before/after), not by TLC. Results outside 1900-03-01..9999-12-31, two-digit years and the Jan 31 -> Feb 28 month-count ambiguity are out of scope.',
+        technique='TLA+ calendar oracle validated by TLC against stepwise definitions, TLC-enumerated grids replayed, trace validation'),
 }
 
 NOT_APPLICABLE = {}
